@@ -22,8 +22,8 @@ class PROP(Prop):
     id = "C14"
     title = "executetask sets the completion event on every exit edge and closes the channel exactly once; _local_schedulexec waits, refuses only the new channel, clears and hands over; the mailbox is overwritten only after the previous task finished"
     design_ref = "DESIGN.md section 4, C14"
-    targets = [G + "executetask", G + "_local_schedulexec", W + "_try_send_to_primary_thread"]
-    heavy = {G + "executetask": 8}
+    targets = [G + "executetask", G + "_local_schedulexec", W + "_try_send_to_primary_thread", W + "integrate_as_primary_thread"]
+    heavy = {G + "executetask": 8, W + "integrate_as_primary_thread": 4}
     assumptions = [
         "compile/exec/the remote function are opaque user code: return, or raise an arbitrary Exception, KeyboardInterrupt, SystemExit or EOFError; they do not touch the gateway's completion event",
         "Channel.close as seen by the worker: counts the call and records the error text; refused with OSError while _executing (C03 decides the real function); a send failure inside close is not modelled here",
